@@ -1657,8 +1657,10 @@ async fn serve_session<S: tokio::io::AsyncRead + tokio::io::AsyncWrite + Unpin>(
                     }
                     ev["den"] = den_map(fs);
                 }
-                let failing = matches!(fault.as_ref().map(|f| f.kind.as_str()), Some("rpc-error") | Some("delayed-error") | Some("malformed") | Some("wrong-id") | Some("no-ok") | Some("close-before")
-                                       | Some("error+ok") | Some("ok+error") | Some("prefixed-error") | Some("warning+error"));
+                // every kind of fault but these leaves the request unexecuted (a damaged reply, "mut:", is sent after the
+                // request was carried out)
+                let failing = !matches!(fault.as_ref().map(|f| f.kind.as_str()), None | Some("none") | Some("close-after") | Some("late-ok") | Some("junos-error"))
+                    && !fault.as_ref().is_some_and(|f| f.kind.starts_with("mut:"));
                 if !failing {
                     if let Some(s) = staged.as_mut() {
                         // override / update: what is loaded becomes the whole configuration of the instance
@@ -1738,11 +1740,13 @@ async fn serve_session<S: tokio::io::AsyncRead + tokio::io::AsyncWrite + Unpin>(
             }
             // other shapes of a negative answer: the error next to the positive indication (either order), after a
             // warning, and with the base namespace bound to a prefix
-            "error+ok" | "ok+error" | "warning+error" => {
+            "error+ok" | "ok+error" | "warning+error" | "error+warning" | "error+warning+warning" => {
                 let warning = RPC_ERROR.replace("<error-severity>error</error-severity>", "<error-severity>warning</error-severity>");
                 let inner = match fk.as_str() {
                     "error+ok" => format!("{RPC_ERROR}<ok/>"),
                     "ok+error" => format!("<ok/>{RPC_ERROR}"),
+                    "error+warning" => format!("{RPC_ERROR}{warning}"),
+                    "error+warning+warning" => format!("{RPC_ERROR}{warning}{warning}"),
                     _ => format!("{warning}{RPC_ERROR}"),
                 };
                 if kind == "load" {
@@ -1760,6 +1764,18 @@ async fn serve_session<S: tokio::io::AsyncRead + tokio::io::AsyncWrite + Unpin>(
                     vec![format!("<nc:rpc-reply message-id=\"{id}\" xmlns:nc=\"{BASE_NS}\">{e}</nc:rpc-reply>{EOM}")]
                 }
             }
+            // an error with another error-tag of RFC 6241 appendix A (what it is called does not make it less of an error)
+            t if t.starts_with("tag:") => {
+                let e = RPC_ERROR.replace("<error-tag>operation-failed</error-tag>", &format!("<error-tag>{}</error-tag>", &t[4..]));
+                if kind == "load" {
+                    vec![format!("<rpc-reply message-id=\"{id}\" xmlns=\"{BASE_NS}\"><load-configuration-results>{e}<load-error-count>1</load-error-count></load-configuration-results></rpc-reply>{EOM}")]
+                } else {
+                    vec![format!("<rpc-reply message-id=\"{id}\" xmlns=\"{BASE_NS}\">{e}</rpc-reply>{EOM}")]
+                }
+            }
+            // neither a positive indication nor an error: results that only count zero errors
+            "no-ok-count0" if kind == "load" => vec![format!("<rpc-reply message-id=\"{id}\" xmlns=\"{BASE_NS}\"><load-configuration-results><load-error-count>0</load-error-count></load-configuration-results></rpc-reply>{EOM}")],
+            "no-ok-count0" => vec![format!("<rpc-reply message-id=\"{id}\" xmlns=\"{BASE_NS}\"></rpc-reply>{EOM}")],
             "malformed" => vec![format!("<rpc-reply message-id=\"{id}\" xmlns=\"{BASE_NS}\"><ok></rpc-reply>{EOM}")],
             "no-ok" => vec![format!("<rpc-reply message-id=\"{id}\" xmlns=\"{BASE_NS}\"></rpc-reply>{EOM}")],
             // the negative answer to a commit in Junos' own shape: the error sits inside <routing-engine>
